@@ -2,6 +2,7 @@ from __future__ import annotations
 
 import ast
 import enum
+import bisect
 import io
 import itertools
 import re
@@ -10,7 +11,7 @@ import tokenize  # (the standard library's: only its open() is used)
 import warnings
 import unicodedata  # (CPython loads it on the first \N{...} escape it decodes; see _FSTRING_TEXT_PIECES)
 from collections.abc import Callable
-from typing import TYPE_CHECKING, Any, ClassVar, Literal, NoReturn, TypeVar, cast
+from typing import TYPE_CHECKING, Any, ClassVar, Final, Literal, NoReturn, TypeVar, cast
 
 from peg_parser.tokenize import Token, TokenInfo, generate_tokens
 from peg_parser.tokenizer import Mark, Tokenizer
@@ -82,6 +83,13 @@ def logger(method: F) -> F:
 
     logger_wrapper.__wrapped__ = method  # type: ignore
     return cast(F, logger_wrapper)
+
+
+_BLANKS: Final = re.compile(r"[ \t\f\r\n]*")
+
+
+def _token_start(tok: TokenInfo) -> tuple[int, int]:
+    return tok.start
 
 
 def memoize(method: F) -> F:
@@ -593,7 +601,7 @@ class Parser:
 
         The number pattern stops at the digits and the letters come out as a NAME, which is what subprocess words need
         ('dd bs=1k'); in Python code '1from', '1as' or '0or' (an octal prefix) are malformed literals."""
-        text, rest = token.string, token.line[token.end[1] :] if token.end[0] == token.start[0] else ""
+        text, rest = token.string, token.line[token.end[1] : token.end[1] + 5] if token.end[0] == token.start[0] else ""
         if not rest or not (rest[0].isascii() and (rest[0].isalpha() or rest[0] == "_")):
             return
         kind = {"0x": "hexadecimal", "0o": "octal", "0b": "binary"}.get(text[:2].lower())
@@ -639,9 +647,8 @@ class Parser:
         return s.encode()[0]
 
     def _concat_strings_in_constant(self, parts: list[TokenInfo]) -> ast.Constant:
-        s = self.literal_eval(parts[0])
-        for ss in parts[1:]:
-            s += self.literal_eval(ss)
+        values = [self.literal_eval(part) for part in parts]
+        s = values[0] if len(values) == 1 else values[0][:0].join(values)  # (one join: += copies what is there every time)
         args = {
             "value": s,
             "lineno": parts[0].start[0],
@@ -691,13 +698,18 @@ class Parser:
             values.append(self._concat_strings_in_constant(ss))
 
         consolidated: list[Any] = []  # ast.Constant | ast.FormattedValue
+        pieces: list[list[str]] = []  # of the Constant a run of adjacent Constants is merged into (joined once at the end)
         for p in values:
             if consolidated and isinstance(consolidated[-1], ast.Constant) and isinstance(p, ast.Constant):
-                consolidated[-1].value += p.value  # type: ignore[unreachable]
+                pieces[-1].append(p.value)  # type: ignore[unreachable]
                 consolidated[-1].end_lineno = p.end_lineno
                 consolidated[-1].end_col_offset = p.end_col_offset
             else:
                 consolidated.append(p)
+                pieces.append([p.value] if isinstance(p, ast.Constant) else [])
+        for p, parts_of in zip(consolidated, pieces):
+            if len(parts_of) > 1:
+                p.value = "".join(parts_of)
 
         if not seen_joined and len(values) == 1 and isinstance(values[0], ast.Constant):
             node: ast.Constant | ast.JoinedStr | ast.Call = values[0]
@@ -753,8 +765,9 @@ class Parser:
             if isinstance(node, ast.Lambda):
                 first, last = (locs["lineno"], locs["col_offset"] + 1), (node.lineno, node.col_offset)
                 depth = 0
-                for tok in self._tokenizer._tokens:
-                    if tok.type == Token.OP and first <= tok.start < last:
+                tokens = self._tokenizer._tokens  # (in source order: only those of the field are looked at)
+                for tok in tokens[bisect.bisect_left(tokens, first, key=_token_start) : bisect.bisect_left(tokens, last, key=_token_start)]:
+                    if tok.type == Token.OP:
                         depth += (tok.string[-1] in "([{") - (tok.string in ")]}")
                 if depth == 0:
                     self.raise_syntax_error_known_location("f-string: lambda expressions are not allowed without parentheses", node)
@@ -766,18 +779,21 @@ class Parser:
             lines = self._tokenizer.get_lines(list(range(lnum, debug.end[0] + 1)))
             end_lnum, end_col = debug.end
             while True:  # white space after the `=` belongs to the text
-                rest = lines[-1][end_col:]
-                stripped = rest.lstrip(" \t\f\r\n")
-                end_col += len(rest) - len(stripped)
-                if stripped.startswith("#"):  # a comment: skipped to the end of its line (and left out of the text below)
-                    stripped, end_col = "", len(lines[-1])
-                following = self._tokenizer.get_lines([end_lnum + 1])[0] if not stripped else ""
+                # (matched in place: slicing off the rest of the line for every field is quadratic in a long line of fields)
+                end_col = cast(re.Match[str], _BLANKS.match(lines[-1], end_col)).end()
+                at_end = end_col == len(lines[-1])
+                if not at_end and lines[-1][end_col] == "#":  # a comment: skipped to the end of its line (and left out below)
+                    at_end, end_col = True, len(lines[-1])
+                following = self._tokenizer.get_lines([end_lnum + 1])[0] if at_end else ""
                 if not following:
                     break
                 lines.append(following)
                 end_lnum, end_col = end_lnum + 1, 0
-            lines[-1] = lines[-1][:end_col]
-            lines[0] = lines[0][col:]
+            if len(lines) == 1:
+                lines[0] = lines[0][col:end_col]
+            else:
+                lines[-1] = lines[-1][:end_col]
+                lines[0] = lines[0][col:]
             node.debug_text = ast.Constant(  # type: ignore[attr-defined]
                 value=self._without_comments("".join(lines)), lineno=lnum, col_offset=col, end_lineno=end_lnum, end_col_offset=end_col
             )
